@@ -45,9 +45,10 @@ def run(ctx):
                       "r2.Rect": "3x3 grid: all 45 valid rectangles (9 empty representations), all pairs, 25 probes"}
     # ---- 2. lat-lng rectangles: seeded first operands x all second operands
     n_rc = 15 * 65 + 1
-    na = 14 if q else 100
+    na = 20 if q else 100
     consts = {"M": 4, "NL": 3, "ML": 2, "NR": 1, "Fams": '{"rc"}',
-              "AIdxS1": set(), "AIdxRc": set(rnd.sample(range(1, n_rc + 1), na)) | {1, n_rc}, "BIdxRc": set(),
+              "AIdxS1": set(), "AIdxRc": set(rnd.sample(range(1, n_rc + 1), na)) | {1, n_rc},
+              "BIdxRc": (set(rnd.sample(range(1, n_rc + 1), 450)) | {1, n_rc}) if q else set(),
               "RcMlK": _k([-2, -1, 0, 1, 2] if not q else [-1, 0, 1, 2]),
               "RcMgK": _k([-4, -2, -1, 0, 1, 2, 4] if not q else [-2, -1, 0, 1, 4])}
     r = ctx.tlc("Gen_Intervals", vlib.cfg(constants=consts, invariants=IV_INV), workers=12, timeout=1500, heap="8g")
